@@ -35,6 +35,7 @@ type roomEvent struct {
 	TS         int64          `json:"ts"`
 	IDR        int            `json:"idr"`
 	SHA        int            `json:"sha"`
+	Addl       []string       `json:"addl"`
 }
 
 type resQuery struct {
@@ -143,6 +144,13 @@ func materialise(q *resQuery) *roomM {
 			c := map[string]interface{}{"room_version": ver}
 			if !(ver == "11" || isDomainless(ver)) {
 				c["creator"] = userIDs[e.Sender]
+			}
+			if len(e.Addl) > 0 {
+				var addl []string
+				for _, u := range e.Addl {
+					addl = append(addl, userIDs[u])
+				}
+				c["additional_creators"] = addl
 			}
 			es.Content = c
 			if isDomainless(ver) {
